@@ -425,10 +425,35 @@ def run(chk):
 
 
 def replay(chk, path):
+    """re-run the recorded program on /repo's current tree; exit 1 (with a VIOLATION line) when the recorded failure reproduces"""
     obj = json.load(open(path))
+    rp = obj.get("replay") or {}
     probe = Proc([common.build_probe()])
-    prog = obj["replay"].get("program")
-    r = probe.call({"cmd": "asm", "files": {"main.asm": prog}, "merge": False, "pc": PC0})
-    print(json.dumps({"program": prog, "bytes": hexbytes(r), "errors": r.get("errors"), "recorded": obj["replay"]}, indent=1))
+    bad = None
+    out = {}
+    if "program" in rp:
+        r = probe.call({"cmd": "asm", "files": {"main.asm": rp["program"]}, "merge": False, "pc": PC0})
+        got = hexbytes(r) if r.get("ok") else ("fail", r.get("panic") or [e["msg"] for e in r.get("errors", []) + r.get("parse_errors", [])])
+        spec = rp.get("spec")
+        out = {"program": rp["program"], "impl_now": got, "demanded": spec}
+        if spec == "rejected":
+            bad = bool(r.get("ok")) or "panic" in r
+        elif isinstance(spec, list) and len(spec) == 2 and spec[0] == "ok":
+            bad = not (r.get("ok") and got[:len(spec[1])] == spec[1])
+        elif isinstance(spec, list):
+            bad = not (r.get("ok") and got[:len(spec)] == spec)
+    elif "text" in rp and "spec" in rp:
+        rr = probe.call({"cmd": "expr", "src": rp["text"]})
+        got = canon_real(rr["ast"]) if rr.get("ok") else None
+        out = {"text": rp["text"], "impl_now": got, "demanded": rp["spec"]}
+        bad = got != rp["spec"]
+    else:
+        print(json.dumps(obj, indent=1)[:3000])
+        print("this replay file names a broken proof obligation / tie, not an input; re-run ./check C03")
     probe.stop()
+    out["reproduces"] = bad
+    print(json.dumps(out, indent=1, default=str))
+    if bad:
+        print("VIOLATION property=C03 replay=%s" % path)
+        return 1
     return 0
